@@ -1,5 +1,5 @@
 (* C16 — every patch the packaging tool produces inflates back to the new binary. *)
-From UV Require Import Base Codec Model PMLemmas Inv Ban Handout Calls CodecProofs Chunked.
+From UV Require Import Base Codec Model PMLemmas Inv Ban Handout Calls CodecProofs Chunked Bsdiff BsdiffProofs.
 
 (* integer-encoding: what the writer emits is what the reader decodes, for every usize / i64 *)
 Theorem C16_varint_u64 :
@@ -85,3 +85,48 @@ Proof.
   - rewrite Eh. apply C16_hash_gate. exact Ws.
 Qed.
 Print Assumptions C16_end_to_end.
+
+(* ---------- the scan loop of bidiff (BsdiffIterator), with the suffix-array matcher as an oracle ----------
+   Whatever `longest_substring_match` answers at each scan position — right or wrong, longest or not — as
+   long as the match it reports lies inside the two buffers, the Matches the loop emits are well formed.
+   So the hypothesis [wf_matches] of the round-trip theorems is discharged for the tool's own scan loop. *)
+Theorem C16_scan_loop_emits_wf_matches :
+  forall (old new : bytes) (lsm : N -> N * N),
+    lsm_bounded old new lsm ->
+    forall ms : list bmatch, bsdiff old new lsm = Ok ms -> wf_matches old new ms = true.
+Proof. exact bsdiff_wf. Qed.
+Print Assumptions C16_scan_loop_emits_wf_matches.
+
+(* the loop ends: |new| + 2 turns of the outer loop are always enough *)
+Theorem C16_scan_loop_terminates :
+  forall (old new : bytes) (lsm : N -> N * N),
+    lsm_bounded old new lsm -> bsdiff old new lsm <> OutOfFuel.
+Proof. exact bsdiff_terminates. Qed.
+Print Assumptions C16_scan_loop_terminates.
+
+(* tool -> library, with no assumption on the match list: scan loop, Translator, Writer, then the
+   streamed Reader with any buffer schedule *)
+Theorem C16_tool_roundtrip :
+  forall (old new : bytes) (lsm : N -> N * N) (ms : list bmatch) (cap : N) (sizes : nat -> N),
+    wf_bytes old -> wf_bytes new ->
+    (Z.of_N (blen old) < two63)%Z -> (Z.of_N (blen new) < two63)%Z ->
+    lsm_bounded old new lsm ->
+    bsdiff old new lsm = Ok ms ->
+    0 < cap -> (forall j, 0 < sizes j) ->
+    apply_patch_chunked cap sizes old (simple_diff old new ms) = Some new.
+Proof.
+  intros old new lsm ms cap sizes Wo Wn Bo Bn Hl Hb Hc Hs.
+  apply C16_streamed_roundtrip; auto. eapply bsdiff_wf; eauto.
+Qed.
+Print Assumptions C16_tool_roundtrip.
+
+(* non-vacuity: a matcher that always answers "no match" and one that finds a real match *)
+Example C16_scan_loop_example_nomatch :
+  bsdiff [1; 2; 3] [7; 8] (fun _ => (0, 0)) =
+  Ok [{| add_old_start := 0; add_new_start := 0; add_length := 0; copy_end := 2 |}].
+Proof. vm_compute. reflexivity. Qed.
+Example C16_scan_loop_example_match :
+  exists ms, bsdiff [1;2;3;4;5;6;7;8;9;10;11;12] [9;9;1;2;3;4;5;6;7;8;9;10;11;12]
+                    (fun sc => if sc <? 2 then (0, 0) else (sc - 2, 14 - sc)) = Ok ms
+             /\ 1 < N.of_nat (List.length ms) /\ wf_matches [1;2;3;4;5;6;7;8;9;10;11;12] [9;9;1;2;3;4;5;6;7;8;9;10;11;12] ms = true.
+Proof. eexists. vm_compute. repeat split. Qed.
